@@ -14,7 +14,7 @@ PROG_RULE = (
     "closed-form enumeration (predicted cardinality == enumerated, else HARNESS error) of the bounded program grammar "
     "S-PROG (strata Pa: statements x expressions depth<=1 x {module,def} x optimize{0,1,2}; Pb: ordered statement pairs x 7 contexts; "
     "Pc: statement nested in statement x 3 contexts; Pe: eval-mode expressions depth<=2; Ps: single-mode), boundary families F/J "
-    "(operand and jump widths), line-shape programs L (module level) and Ld (the same shapes inside a function body), the repo's own regression sources R%s; compiled by each real interpreter; "
+    "(operand and jump widths), programs Q holding constants that are == but not the same constant (signed zeros, 1/1.0/True, tuples and sets of those, NaNs of either sign) alone and pairwise, line-shape programs L (module level) and Ld (the same shapes inside a function body), the repo's own regression sources R%s; compiled by each real interpreter; "
     "every nested code object is one evaluation, deduplicated by strict key. distinct_nontrivial = distinct code objects (by strict key over all co_* fields) %s"
 )
 
@@ -32,6 +32,7 @@ CODE_REACH = [
     "operand:free:1",
     "operand:jabs:1",
     "operand:jabs:2",
+    "operand:jabs:3",
     "operand:jrel:1",
     "operand:jrel:2",
     "operand:raw:1",
@@ -88,7 +89,7 @@ PROPS = {
     "C09": {
         "level": "exploration",
         "interpreters": PRODUCERS,
-        "rule": PROG_RULE % ("; thorough adds the stdlib corpus", "with at least one operand-table entry, counted separately as decoded and as canonically re-encoded (normalize().to_code() decoded again)")
+        "rule": "every function of the signature-shape space S-SIG (see C04), and " + PROG_RULE % ("; thorough adds the stdlib corpus", "with at least one operand-table entry, counted separately as decoded and as canonically re-encoded (normalize().to_code() decoded again)")
         + ". For every override-carrying table entry whose position equals its first-use rank (computed from CPython's reading), the override is removed from all uses with dataclasses.replace and the data re-encoded: identical code => violation.",
         "assumptions": TRUST + ["at most 64 removal experiments per code object (cap hits are reported as sum_removal_cap_hits; 0 on a healthy tree)"],
         "required_reach": {"quick": CODE_REACH + ["unreferenced:const", "unreferenced:name@3.7,3.8,3.9", "tables-in-first-use-order:decoded", "tables-in-first-use-order:canonical", "override-carrying:decoded"]},
@@ -142,7 +143,7 @@ PROPS = {
         "level": "exploration",
         "interpreters": ALL,
         "stages": 2,
-        "rule": "stage 1: each producer 3.7-3.10 writes the documents (decoded and normalized) of S-CONST x {operand, additional}, the string x position family and a spread of 6000 (thorough: all ~60000 of stratum Pa) grammar programs; stage 2: each of the seven consumers 3.7-3.13 loads every producer's documents (28 ordered pairs), re-serializes and compares canonical dumps (sorted keys, frozenset listings sorted), and compares normalize() of the loaded value with the producer's own normalized document. distinct_nontrivial = distinct (producer, consumer, document) triples.",
+        "rule": "stage 1: each producer 3.7-3.10 writes the documents (decoded and normalized) of S-CONST x {operand, additional}, the string x position family and a spread of 6000 (thorough 16000, i.e. practically all of stratum Pa at optimize 0) grammar programs; stage 2: each of the seven consumers 3.7-3.13 loads every producer's documents (28 ordered pairs), re-serializes and compares canonical dumps (sorted keys, frozenset listings sorted), and compares normalize() of the loaded value with the producer's own normalized document. distinct_nontrivial = distinct (producer, consumer, document) triples.",
         "assumptions": TRUST,
         "required_reach": {"quick": ["portable:3.7->3.13", "portable:3.10->3.7", "portable:3.8->3.11", "portable:3.9->3.12", "portable:3.10->3.10"]},
     },
@@ -163,9 +164,10 @@ PROPS = {
     "C12": {
         "level": "model_checking",
         "interpreters": PRODUCERS,
-        "rule": "for every code object of a spread of 600 (thorough 2400) grammar programs: a store {code object, its CodeData, the normalized CodeData, their two JSON documents}; every sequence of <=2 (thorough <=3) calls among the 9 concrete calls (90 / 819 sequences per code object, run back to back on one shared store) {from_code(c), to_code(d|n), normalize(d|n), to_json_data(d|n), from_json_data(jd|jn)} on those shared objects; after every call the whole store is compared with its initial strict snapshot (documents incl. nested containers and key order) and the result with the result of the same call on untouched arguments; then one mutation (pop/clear/append) at every container path of a returned document followed by to_json_data again, and of an input document after from_json_data. states = distinct store snapshots; transitions = calls; traces_validated_against_impl = call sequences executed.",
+        "rule": "for every code object of a spread of 600 (thorough 2400) grammar programs: a store {code object, its CodeData, the normalized CodeData, their two JSON documents}; every sequence of <=2 (thorough <=3) calls among the 9 concrete calls (90 / 819 sequences per code object, run back to back on one shared store) {from_code(c), to_code(d|n), normalize(d|n), to_json_data(d|n), from_json_data(jd|jn)} on those shared objects; after every call the whole store is compared with its initial strict snapshot (documents incl. nested containers and key order) and the result with the result of the same call on untouched arguments; then one mutation (pop/clear/append) at every container path of a returned document followed by to_json_data again, and of an input document after from_json_data; every code object also has a twin (equal under code.__eq__, other file name) that is decoded next to it, and at the end of each worker process (4 per interpreter, so several hundred arguments each) every object and twin is passed to from_code/normalize/to_json_data once more and must give its first results. states = distinct store snapshots; transitions = calls; traces_validated_against_impl = call sequences executed.",
         "assumptions": TRUST,
-        "required_reach": {"quick": ["function-document", "pure:90-sequences"], "thorough": ["function-document", "pure:819-sequences"]},
+        "required_reach": {"quick": ["function-document", "pure:90-sequences", "recheck-ok"], "thorough": ["function-document", "pure:819-sequences", "recheck-ok"]},
+        "shards": {"quick": 4, "thorough": 4},
     },
     "C16": {
         "level": "exploration",
